@@ -29,7 +29,14 @@ type xferScn struct {
 	IDs       []uint32  `json:"ids"`
 	Progs     [2][][]wr `json:"progs"` // side -> writer -> writes
 	ByteLevel bool      `json:"bytelevel"`
+	// Gated: writers (indices into Progs[side]) that start only when their side's trunk is in the
+	// middle of a payload of a MiB or more, i.e. while another writer's multi-frame Write holds the
+	// trunk: they then compete for the trunk at every point where that Write could let go of it
+	Gated [2][]int `json:"gated,omitempty"`
 }
+
+// gateWait is how long a gated writer waits for the large payload before it writes anyway.
+const gateWait = 5 * time.Second
 
 type frameHdr struct {
 	ID   uint32 `json:"id"`
@@ -66,6 +73,7 @@ type dirObs struct {
 type xferObs struct {
 	Dir   [2]dirObs `json:"dir"`
 	Fails []string  `json:"fails,omitempty"` // write errors, read errors, time-outs
+	Hung  bool      `json:"hung,omitempty"`  // the transfer did not complete within the bound
 }
 
 // payload of write number seq of writer w: the first byte identifies the writer, the
@@ -244,16 +252,31 @@ func execXfer(s *xferScn, maxp int) *xferObs {
 	var wwg sync.WaitGroup
 	startC := make(chan struct{})
 	for side := 0; side < 2; side++ {
+		gated := map[int]bool{}
+		for _, w := range s.Gated[side] {
+			gated[w] = true
+		}
 		for w, prog := range s.Progs[side] {
 			wwg.Add(1)
-			go func(side, w int, prog []wr) {
+			// payloads are made before the start: the writers do nothing but write
+			bufs := make([][]byte, len(prog))
+			for seq, x := range prog {
+				bufs[seq] = payload(w, seq, x.Size)
+			}
+			go func(side, w int, prog []wr, bufs [][]byte, gated bool) {
 				defer wwg.Done()
 				<-startC
+				if gated {
+					select {
+					case <-recs[side].bigC:
+					case <-time.After(gateWait):
+					}
+				}
 				for seq, x := range prog {
 					if !cr[side][x.ID].acquire(framesOf(x.Size, maxp)) {
 						return
 					}
-					b := payload(w, seq, x.Size)
+					b := bufs[seq]
 					n, err := conns[side][x.ID].Write(b)
 					if err != nil || n != len(b) {
 						fail("side %d writer %d write %d (id %d, %d bytes): n=%d err=%v", side, w, seq, x.ID, x.Size, n, err)
@@ -261,7 +284,7 @@ func execXfer(s *xferScn, maxp int) *xferObs {
 						return
 					}
 				}
-			}(side, w, prog)
+			}(side, w, prog, bufs, gated[w])
 		}
 	}
 	close(startC)
@@ -288,6 +311,7 @@ func execXfer(s *xferScn, maxp int) *xferObs {
 	case <-finished:
 	case <-time.After(2 * opBound):
 		fail("transfer did not complete within %v (lost frame or hang)", 2*opBound)
+		o.Hung = true
 		killAll()
 	}
 	muxes[0].Close()
